@@ -49,8 +49,10 @@ package api
 //@ import "github.com/oasisprotocol/oasis-core/go/common/crypto/signature"
 
 //@ func Context.TxSigner
-//@   props C08 C09 C17
+//@   props C08 C09 C17 C10
+//@   requires c.mode == ContextCheckTx || c.mode == ContextDeliverTx || c.mode == ContextSimulateTx
 //@   modifies nothing
+//@   note only available in a transaction context: in every other mode (block begin/end, message execution, genesis) the call PANICS. Handlers that are reached from transactions only assume this at their call sites (assume-pre, listed in the evidence); a function that is also reached from a runtime message or from block processing must not call it
 //@   ensures result == Signer(c)
 
 // ---- state tree attribution and transaction (overlay) contexts ----
